@@ -24,6 +24,8 @@ pub fn doc() -> Vec<u8> {
     fb.add(10, 0, &Val::dict(vec![("Type", Val::name("Pages")), ("Parent", Val::r(11)), ("Kids", Val::Array(vec![])), ("Count", Val::Int(0))]));
     fb.add(11, 0, &Val::dict(vec![("Type", Val::name("Pages")), ("Parent", Val::r(10)), ("Kids", Val::Array(vec![])), ("Count", Val::Int(0))]));
     fb.add_objstm(8, &[(5, Val::dict(vec![("In", Val::name("ObjStm"))])), (6, Val::Int(66))], &ObjStmOpts::default());
+    // a second object stream: anything that remembers "the" object stream between calls is shared state
+    fb.add_objstm(13, &[(14, Val::Int(1414)), (15, Val::dict(vec![("In", Val::name("SecondObjStm"))]))], &ObjStmOpts::default());
     // a chain of 19 page-tree nodes and a page at its end (not reachable from the root): loading the page loads every
     // ancestor through its eager /Parent reference, i.e. 21 loads nested in each other
     for n in 100u64..119 {
@@ -34,7 +36,7 @@ pub fn doc() -> Vec<u8> {
     fb.bytes()
 }
 
-pub const CALLS: &[&str] = &["get<PagesNode>(3)", "get<PagesNode>(4)", "get<PagesNode>(2)", "get<Font>(9)", "get_page(0)", "resolve(5@objstm)", "get<PagesNode>(10:cyclic)", "get<PagesNode>(11:cyclic)", "get<PagesNode>(119:nested-21-deep)"];
+pub const CALLS: &[&str] = &["get<PagesNode>(3)", "get<PagesNode>(4)", "get<PagesNode>(2)", "get<Font>(9)", "get_page(0)", "resolve(5@objstm)", "get<PagesNode>(10:cyclic)", "get<PagesNode>(11:cyclic)", "get<PagesNode>(119:nested-21-deep)", "resolve(14@objstm2)", "resolve(15@objstm2)", "resolve(6@objstm)"];
 
 fn ev(e: &pdf::error::PdfError) -> String {
     // peel Try / Shared and also FromPrimitive wrappers: the root cause is what is compared
@@ -78,7 +80,11 @@ where
         },
         6 => node(10),
         7 => node(11),
-        _ => node(119),
+        8 => node(119),
+        n => match res.resolve(PlainRef { id: [14, 15, 6][n - 9], gen: 0 }) {
+            Ok(p) => crate::common::show_prim(&p),
+            Err(e) => ev(&e),
+        },
     }
 }
 
@@ -509,6 +515,10 @@ pub fn configs(tier: Tier) -> Vec<(Config, usize)> {
                 v.push((Config { shared_resolver: shared, cached, plan: vec![vec![0, 1, 2], vec![2, 1, 0]] }, 3));
                 v.push((Config { shared_resolver: shared, cached, plan: vec![vec![4, 5, 3], vec![3, 4, 5]] }, 2));
             }
+            // compressed objects of two different object streams (and of the same one) at the same time
+            for plan in [vec![vec![5], vec![9]], vec![vec![5], vec![10]], vec![vec![11], vec![9]], vec![vec![5], vec![11]], vec![vec![5, 9], vec![10, 11]]] {
+                v.push((Config { shared_resolver: shared, cached, plan }, if tier.thorough() { 3 } else { 2 }));
+            }
             // deeply nested loads on both threads (bounds on what the guard stack may hold must be per thread)
             v.push((Config { shared_resolver: shared, cached, plan: vec![vec![8], vec![8]] }, if tier.thorough() { 2 } else { 1 }));
             v.push((Config { shared_resolver: shared, cached, plan: vec![vec![8], vec![0]] }, if tier.thorough() { 2 } else { 1 }));
@@ -565,7 +575,7 @@ pub fn run(tier: Tier, _seed: u64, tally: &mut Tally) -> CheckMeta {
     CheckMeta {
         prop: "C13",
         level: "model_checking",
-        rule: format!("{} thread programs (2 threads x 1 call for every ordered pair of 6 calls; 2 threads x 2 calls; 3 threads x 1 call; thorough: 2 x 3 calls; a mutually referring pair) x {{shared resolver, resolver per thread}} x {{no caches, instrumented compute-once caches}}; every interleaving at the scheduling points (4 hook points in StorageResolver::get, inside each critical section of its guard mutex - which under the feature is a mutex whose blocking the scheduler sees, so a thread can be preempted while it holds the lock and lock / try_lock of the others behave accordingly -, lock/wait/notify of the instrumented cache, thread start/finish) up to the preemption bound ({}) is executed on real threads under a baton-passing scheduler in worker processes; states = schedules executed, transitions = schedule-tree edges. Non-trivial = at least one non-default scheduling choice; distinct by (program, choice vector). Each answer must equal the call run alone; no panic, no deadlock, no process abort, resolver usable afterwards; failing schedules are replayed and must reproduce.", cfgs.len(), if tier.thorough() { "3 for 2 threads, 2 for 3 threads" } else { "2 for 2 threads, 1 for 3 threads" }),
+        rule: format!("{} thread programs (2 threads x 1 call for every ordered pair of 6 calls; 2 threads x 2 calls; 3 threads x 1 call; thorough: 2 x 3 calls; a mutually referring pair; compressed objects of two object streams) x {{shared resolver, resolver per thread}} x {{no caches, instrumented compute-once caches}}; every interleaving at the scheduling points (4 hook points in StorageResolver::get, inside each critical section of its guard mutex - which under the feature is a mutex whose blocking the scheduler sees, so a thread can be preempted while it holds the lock and lock / try_lock of the others behave accordingly -, lock/wait/notify of the instrumented cache, thread start/finish) up to the preemption bound ({}) is executed on real threads under a baton-passing scheduler in worker processes; states = schedules executed, transitions = schedule-tree edges. Non-trivial = at least one non-default scheduling choice; distinct by (program, choice vector). Each answer must equal the call run alone; no panic, no deadlock, no process abort, resolver usable afterwards; failing schedules are replayed and must reproduce.", cfgs.len(), if tier.thorough() { "3 for 2 threads, 2 for 3 threads" } else { "2 for 2 threads, 1 for 3 threads" }),
         assumptions: vec![
             "all shared mutable state reachable from these calls is the guard stack (mutex) and the caches (behind the Cache trait); the guard mutex is replaced by pdf::verif::Mutex (same interface, std mutex inside) in the checked build".into(),
             "VerifCache is a transliteration of globalcache 0.2.4 SyncCache::get (source hash checked at self-check; sequential traces compared with the real SyncCache)".into(),
